@@ -178,6 +178,9 @@ func init() {
 		e3 := packet.Equal(p, p) && packet.Equal(q, q) && q.Equals(q)
 		// nil arguments: equal only to nil (bin/gocover: the nil branch was never reached)
 		e3 = e3 && !packet.Equal(p, nil) && !packet.Equal(nil, q) && packet.Equal(nil, nil) && !p.Equals(nil)
+		// the method agrees with the function on a nil receiver too (seeded C01-u2)
+		var np *packet.Packet
+		e3 = e3 && !np.Equals(q) && np.Equals(nil)
 		return VL(VBool(e1), VBool(e2), VBool(e3), VBool(*p == bp && *q == bq))
 	})
 	register("hdr.from_bytes", func(a []Val) Val {
